@@ -25,6 +25,7 @@ int __real_pthread_cond_broadcast(pthread_cond_t*);
 int __real_pthread_cond_signal(pthread_cond_t*);
 int __real_pthread_create(pthread_t*, const pthread_attr_t*, void*(*)(void*), void*);
 int __real_pthread_join(pthread_t, void**);
+int __real_pthread_detach(pthread_t);
 
 enum { ST_RUN, ST_LOCK, ST_TASK, ST_WAIT, ST_JOIN, ST_IDLE, ST_EXITED, ST_ZOMBIE };
 enum { K_WORKER, K_CLIENT };
@@ -43,6 +44,7 @@ typedef struct cth {
   void *arg;
   volatile int cmd, cmd_task, cmd_wait;
   int tr_id;                 // free mode: thread number in the trace
+  volatile int detached;     // pthread_detach was called: the pthread_t value may be reused by a later thread
 } cth;
 
 struct htask { int id; };
@@ -263,11 +265,19 @@ int __wrap_pthread_create(pthread_t *th, const pthread_attr_t *a, void*(*fn)(voi
   return 0;
 }
 
+int __wrap_pthread_detach(pthread_t th) {
+  for (int i = 0; i < nworkers; ++i) {
+    if (!workers[i]->detached && pthread_equal(workers[i]->th, th)) { workers[i]->detached = 1; break; }
+  }
+  return __real_pthread_detach(th);
+}
+
 int __wrap_pthread_join(pthread_t th, void **ret) {
   if (me && ctl_active) {
     for (int i = 0; i < nworkers; ++i) {
-      if (pthread_equal(workers[i]->th, th)) {
+      if (!workers[i]->detached && pthread_equal(workers[i]->th, th)) {
         me->join_target = workers[i];
+        ev("join:%d", me->idx);
         park(ST_JOIN);
         me->join_target = 0;
         break;
@@ -275,7 +285,7 @@ int __wrap_pthread_join(pthread_t th, void **ret) {
     }
   } else if (me && free_trace) {
     int r = __real_pthread_join(th, ret);
-    for (int i = 0; i < nworkers; ++i) if (pthread_equal(workers[i]->th, th)) tr("%d joined %d", my_tr_id(), workers[i]->tr_id);
+    for (int i = 0; i < nworkers; ++i) if (!workers[i]->detached && pthread_equal(workers[i]->th, th)) tr("%d joined %d", my_tr_id(), workers[i]->tr_id);
     return r;
   }
   return __real_pthread_join(th, ret);
@@ -445,20 +455,33 @@ static void do_call_op(int i, int cmd, int task, int wait) {
 // waiting shutdown from the first idle client (unless one was requested already), then run the first enabled thread until none is left
 static void do_finish(void) {
   if (!exec_kind) return;
-  if (!shutdown_flag()) {
-    int pending = 0;
-    for (int i = 0; i < nclients; ++i) if (clients[i]->status == ST_LOCK && clients[i]->cmd == CMD_SHUTDOWN) pending = 1;
-    if (!pending) {
-      for (int i = 0; i < nclients; ++i) {
-        if (clients[i]->status == ST_IDLE) { do_call_op(i, CMD_SHUTDOWN, 0, 1); break; }
+  cth *en[MAXW + MAXC];
+  for (int round = 0; round < 2; ++round) {
+    // first round: let every call that is under way complete; second round: waiting shutdown from the first idle client
+    if (round == 1 && !shutdown_flag()) {
+      int pending = 0;
+      for (int i = 0; i < nclients; ++i) if (clients[i]->status == ST_LOCK && clients[i]->cmd == CMD_SHUTDOWN) pending = 1;
+      if (!pending) {
+        for (int i = 0; i < nclients; ++i) {
+          if (clients[i]->status == ST_IDLE) { do_call_op(i, CMD_SHUTDOWN, 0, 1); break; }
+        }
       }
     }
+    for (int fuel = 0; fuel < 200000; ++fuel) {
+      int n = list_enabled(en);
+      if (!n) break;
+      step_thread(en[0], 0);
+    }
   }
-  cth *en[MAXW + MAXC];
+}
+
+// run the enabled client threads (lowest index first) until none of them can move
+static void do_settle(void) {
   for (int fuel = 0; fuel < 200000; ++fuel) {
-    int n = list_enabled(en);
-    if (!n) break;
-    step_thread(en[0], 0);
+    cth *t = 0;
+    for (int i = 0; i < nclients && !t; ++i) if (enabled(clients[i])) t = clients[i];
+    if (!t) break;
+    step_thread(t, 0);
   }
 }
 
@@ -546,7 +569,7 @@ int main(int argc, char **argv) {
       teardown();
       do_stress(n, w);
     } else if (!exec_kind) {
-      if (!strcmp(w[0], "call") || !strcmp(w[0], "step") || !strcmp(w[0], "spur") || !strcmp(w[0], "pick") || !strcmp(w[0], "finish")) printf("no-executor\n");
+      if (!strcmp(w[0], "call") || !strcmp(w[0], "step") || !strcmp(w[0], "spur") || !strcmp(w[0], "pick") || !strcmp(w[0], "finish") || !strcmp(w[0], "settle")) printf("no-executor\n");
       else printf("bad-op\n");
     } else if (!strcmp(w[0], "call") && n == 4) {
       int i = atoi(w[1]);
@@ -584,6 +607,9 @@ int main(int argc, char **argv) {
     } else if (!strcmp(w[0], "finish") && n == 1) {
       do_finish();
       flush_line("finish: ");
+    } else if (!strcmp(w[0], "settle") && n == 1) {
+      do_settle();
+      flush_line("settle: ");
     } else printf("bad-op\n");
   }
   teardown();
